@@ -287,6 +287,7 @@ const LADDERS: &[&str] = &[
     "var-paren-indirection", "clip-chain", "var-doubling-groups", "var-doubling-reuse", "var-sum-tree", "nest-g-lifted-limit", "loop-defaults",
     "waiting-many-vars", "waiting-then-comments", "waiting-many", "points-references", "retry-growing-id", "specs-double-reuse",
     "entity-empty-fanout", "entity-many-declared", "waiting-then-vars", "indent-repeated", "points-box-referenced",
+    "nest-g-waiting-content-shape",
 ];
 
 fn rungs(tier: Tier) -> Vec<u64> {
@@ -476,6 +477,9 @@ fn ladder_doc(family: &str, n: u64) -> Option<(String, u64)> {
         }
         // a long indentation before n elements with text on the same line
         "indent-repeated" => (format!("<svg>\n{}{}</svg>", " ".repeat(n_us), rep("<rect wh=\"1\" text=\"a\"/>", n_us)), 2 * n + 3),
+        // n nested groups, each holding a shape with text content which waits for an element written after them all
+        // (beyond the depth limit this is an error at once, however often the shapes fail)
+        "nest-g-waiting-content-shape" => (format!("<svg>{}{}<rect id=\"t\" wh=\"1\"/></svg>", rep("<g><rect wh=\"2\" xy=\"#t|h\">x</rect>", n_us), rep("</g>", n_us)), 4 * n + 3),
         // a polyline of n points referenced n times
         "points-box-referenced" => (format!("<svg><polyline id=\"p\" points=\"{}\"/>{}</svg>", rep("1 2 ", n_us), rep("<rect xy=\"#p@tl\" wh=\"1\"/>", n_us)), 2 * n + 3),
         // templates in <specs> which each reuse the previous one twice: 2^k instances for 2k elements
